@@ -11,13 +11,14 @@ DRV = os.path.join(lib.LEAN, ".lake", "build", "bin", "drv_euler")
 LEAF_IDX = os.path.join(troute.GEN, "index_leaf.txt")
 
 REQUIRED = [
-    "orders_match_header", "order_setOrder", "legal_orders", "setOrder_order", "code_injective", "real_order_eq_model",
+    "orders_match_header", "order_setOrder", "legal_orders", "setOrder_order", "code_injective", "legalCount_eq", "legal_iff",
+    "legal_patterns_distinct", "legal_aliases_behave", "real_order_eq_model",
     "real_angleOrder_eq_model", "real_angleMapping_eq_model", "angleOrder_permutation", "angleMapping_inverts_angleOrder",
     "toXYZVector_slots", "toXYZVector_setXYZVector", "setXYZVector_toXYZVector", "ctor_layouts", "toXYZVector_ctorXYZLayout",
     "setOrder_keeps_angles", "copy_and_assign",
     "toM33_raw", "toM33_raw_toMat", "toQuat_raw", "toMatrix44_eq_embed_toMatrix33", "toMatrix33_eq_spec", "toMatrix33_orthonormal_det_one", "toQuat_eq_spec", "toQuat_unit",
     "toQuat_toMatrix33_eq_toMatrix33", "toMatrix44_XYZ_eq_setEulerAngles",
-    "extract_M44_eq_extract_M33", "extract_embed33", "extract_Quat_eq", "ctor_matrix_eq_extract", "reorder_ctor_eq",
+    "extract_M44_eq_extract_M33", "extract_embed33", "extract_Quat_eq", "ctor_matrix_eq_extract", "reorder_ctor_eq", "reorder_ctor_eq_other_pairs",
     "flip_same_rotation", "simpleXYZRotation_preserves", "simpleXYZRotation_within", "simpleXYZRotation_within_pi", "makeNear_preserves_rotation",
     "makeNear_within", "makeNear_within_pi", "nearestRotation_preserves_rotation", "nearestRotation_within", "nearestRotation_within_pi",
     "angleMod_in_range", "angleMod_congruent", "angleMod_driver_instance",
@@ -36,12 +37,13 @@ REQUIRED = [
 REQUIRED_ROUND = [
     "exM33_eq_core", "toM33_eq_core", "toMatrix33_extract", "toMatrix44_extract", "quatHom_orthonormal", "Quat_toMatrix33_rotation",
     "toMatrix33_extract_quat", "trig_hsc", "toMatrix33_extract_toMatrix33", "toMatrix33_surjective", "reorder_preserves_rotation",
-    "ctor_matrix_roundtrip", "sqrtOK_real", "trigSpec_real", "toMatrix33_extract_real", "gimbalY_rot", "ident33_rot", "nonvacuity_gimbal",
+    "reorder_any_pair", "reorder_other_pairs_preserve_rotation", "ctor_matrix_roundtrip", "sqrtOK_real", "trigSpec_real", "toMatrix33_extract_real", "gimbalY_rot", "ident33_rot", "nonvacuity_gimbal",
     "nonvacuity_reorder",
     "extractEulerXYZ_eq_member_normalized", "extractEulerZYX_eq_member_normalized", "len3_smul", "len3_eq_zero", "nrm_smul",
     "normRows3_scaleRows3", "extractEulerXYZ_scale_invariant", "extractEulerZYX_scale_invariant", "normRows3_of_rotation",
     "extractEulerXYZ_rebuilds_scaled_rotation", "extractEuler_scale_invariant", "nonvacuity_scaled_rotation",
-    "makeNear_other_order", "makeNear_other_order_preserves_rotation", "makeNear_other_order_within", "nonvacuity_makeNear_other_order",
+    "makeNear_other_order", "makeNear_other_order_preserves_rotation", "makeNear_other_order_within", "makeNear_other_order_within_ZYXr",
+    "nonvacuity_makeNear_other_order",
 ]
 
 # fixed rational stand-in for the PARAMETER `angleMod` in the Lean-side validation of the emitted text (same function as the
@@ -101,6 +103,9 @@ SECTIONS = {
     "toMatrix33_extract_toMatrix33": ["extract-roundtrip", "extract-roundtrip-gimbal", "extract-toMatrix-real"],
     "toMatrix33_surjective": ["extract-foreign-signedperm", "extract-foreign-quat"],
     "reorder_preserves_rotation": ["reorder", "reorder-order"], "nonvacuity_reorder": ["reorder"],
+    "reorder_any_pair": ["reorder", "extract-roundtrip", "extract-roundtrip-gimbal"], "reorder_other_pairs_preserve_rotation": ["reorder", "reorder-order"],
+    "reorder_ctor_eq_other_pairs": ["reorder", "reorder-order"], "makeNear_other_order_within_ZYXr": ["makeNear-within-pi-other-order"],
+    "legal_iff": ["order"], "legal_aliases_behave": ["order"], "legal_patterns_distinct": ["order"],
     "ctor_matrix_roundtrip": ["ctor-matrix", "extract-foreign-signedperm", "extract-foreign-quat"],
     "extractEulerXYZ_eq_member_normalized": ["extractEulerXYZ", "extract33-vs-extract44"], "extractEulerZYX_eq_member_normalized": ["extractEulerZYX", "extract33-vs-extract44"],
     "extractEulerXYZ_scale_invariant": ["extractEulerXYZ"], "extractEulerZYX_scale_invariant": ["extractEulerZYX"],
@@ -227,8 +232,9 @@ def anglemod_correspondence(chk, corr, n):
     bad = [(a, b) for a, b in zip(ll, rr) if not b.startswith("OK")]
     hits = {"no_wrap": sum(1 for b in rr if b == "OK 0"), "plus_2pi": sum(1 for b in rr if b == "OK 1"), "minus_2pi": sum(1 for b in rr if b == "OK 2")}
     ok = rc1 == 0 and rc2 == 0 and len(ll) == len(rr) and len(ll) > 1000 and not bad and all(hits.values())
-    chk.oblige("correspondence: real Euler<T>::angleMod = exact model within 2^-22 (T = double, float); result in [-pi_T,pi_T]; "
-               "model - x an exact multiple of 2 pi_T", "correspondence", ok)
+    chk.oblige("correspondence: real Euler<T>::angleMod = exact model (Lean, rational arithmetic) within 2^-22 = one float ulp at pi (T = double, "
+               "float); returned float within 2^-22 of [-pi_T,pi_T] (it may equal float(M_PI) > M_PI: the exact bound is in the float-all / "
+               "double-sweep obligations); model - x an exact multiple of 2 pi_T", "correspondence", ok)
     chk.count(len(ll), len(ll))
     chk.extra["angleMod_correspondence"] = {"inputs": len(ll), "branch_hits": hits, "mismatches": len(bad)}
     for a, b in bad[:5]:
@@ -269,6 +275,59 @@ def anglemod_float_all(chk, corr):
                  {"tail": out[-500:]}, False)
 
 
+def lean_tv_coverage(chk, binary, index_tv):
+    """Which entries the Lean-side validation of the emitted text actually reaches.  `rattv` prints no case for an entry whose evaluation
+    overflows the 128-bit fractions; lean_tv counts only RATSKIP lines, so such entries would drop out silently.  Expected on the clean
+    tree: exactly the 96 entries that add the literal M_PI = 884279719003555/281474976710656 (nearestRotation_*, makeNear_*,
+    makeNearFromXYZ_*, makeNearFromZYXr_*: sums of squares with 2^96 denominators) and the 4 extractEuler* entries (external `length`)
+    have no case; every other entry with inputs has at least one.  Those 100 are validated bitwise at double on the C++ side (tv) only."""
+    cmd = [binary, "rattv", str(chk.seed), "4" if chk.thorough else "2", "--idx", LEAF_IDX]
+    rc, out = lib.sh(cmd, timeout=900)
+    have = set(m.group(1) for m in re.finditer(r"^RATCASE (\S+) ", out, re.M))
+    names = [d["name"] for d in index_tv]
+    def expected_uncovered(n):
+        return bool(re.match(r"Euler\.(nearestRotation|makeNear|makeNearFromXYZ|makeNearFromZYXr)_[XYZ]{3}r?$", n)) or \
+            n in ("Euler.extractEulerXYZ", "Euler.extractEulerZYX", "Euler.extractEuler22", "Euler.extractEuler33")
+    silent = sorted(n for n in names if n not in have and not expected_uncovered(n))
+    newly = sorted(n for n in names if n in have and expected_uncovered(n))
+    uncovered = sorted(n for n in names if n not in have)
+    ok = rc == 0 and not silent and len(names) - len(uncovered) >= 417
+    chk.oblige("lean-tv coverage: every extracted entry with inputs has a Lean-side case for its emitted text, EXCEPT exactly the %d named "
+               "M_PI-literal entries (128-bit fraction overflow) and the 4 extractEuler* entries (external length), which are validated "
+               "bitwise at double on the C++ side only" % (len([n for n in names if expected_uncovered(n)]) - 4), "coverage", ok,
+               None if ok else {"entries_without_case_unexpectedly": silent[:20]})
+    chk.extra["lean_tv_coverage"] = {"entries_with_inputs": len(names), "with_case": len(names) - len(uncovered), "without_case": len(uncovered),
+                                     "without_case_expected_classes": {"M_PI literal (nearestRotation/makeNear*/makeNearFrom*)": sum(1 for n in uncovered if "Near" in n or "nearest" in n),
+                                                                       "external length (extractEuler*)": sum(1 for n in uncovered if "extractEuler" in n)},
+                                     "expected_uncovered_but_covered_now": newly[:10]}
+    if not ok:
+        chk.fail("lean-tv-coverage", "lean-tv:c11:coverage", "entries dropped out of the Lean-side validation of the emitted text without being listed",
+                 {"entries": silent[:20]}, False)
+
+
+def anglemod_double_sweep(chk, corr):
+    """T = double, C++ side, no Lean driver: k*M_PI and k*2*M_PI +- 0..8 ulps for |k| <= kmax plus random doubles; exact range
+    |r| <= float(M_PI) and r within HALF a float ulp of a value exactly congruent to x modulo 2*M_PI (the model comparison tolerates a whole ulp)."""
+    n, kmax = (10000000, 1048576) if chk.thorough else (1000000, 65536)
+    rc, out = lib.sh([corr, "anglemod-double-sweep", str(chk.seed), str(n), str(kmax)], timeout=3000)
+    m = re.search(r"AMDBL evals=(\d+) failures=(\d+) no_wrap=(\d+) plus_2pi=(\d+) minus_2pi=(\d+) result_at_pm_pi_f=(\d+) result_above_double_pi=(\d+) worst_over_half_ulp=(\S+)", out)
+    ok = rc == 0 and m is not None and int(m.group(2)) == 0 and all(int(m.group(i)) > 0 for i in (3, 4, 5, 6)) and int(m.group(1)) >= n + 34 * kmax
+    chk.oblige("correspondence: Euler<double>::angleMod on k*M_PI, k*2*M_PI +- 0..8 ulps (|k| <= %d) and %d random doubles: |result| <= float(M_PI) "
+               "exactly; result within half a float ulp of an exact representative of the argument modulo 2*M_PI; every wrap branch and a "
+               "result of exactly +-float(M_PI) hit" % (kmax, n), "correspondence", ok)
+    if m:
+        chk.count(int(m.group(1)), int(m.group(1)))
+        chk.extra["angleMod_double_sweep"] = {"arguments": int(m.group(1)), "no_wrap": int(m.group(3)), "plus_2pi": int(m.group(4)), "minus_2pi": int(m.group(5)),
+                                              "results_exactly_pm_float_pi": int(m.group(6)), "results_above_the_double_M_PI": int(m.group(7)),
+                                              "worst_offset_over_half_float_ulp": float(m.group(8))}
+    for l in [l for l in out.split("\n") if l.startswith("AMDBL-FAIL")][:3]:
+        chk.fail("correspondence:angleMod-double", "corr:angleMod:double-sweep",
+                 "Euler<double>::angleMod returns a float outside [-float(M_PI), float(M_PI)] or more than half a float ulp away from every "
+                 "value congruent to its argument modulo 2*M_PI", {"line": l, "replay_cmd": ".build/bin/c11_corr anglemod-double-sweep %d %d %d" % (chk.seed, n, kmax)}, True)
+    if not ok and "AMDBL-FAIL" not in out:
+        chk.fail("correspondence:angleMod-double", "corr:angleMod:double-sweep:run", "the double sweep did not run / a branch was never hit", {"tail": out[-500:]}, False)
+
+
 def tables_unchanged(chk):
     """Lemmas/C11Tables.lean (the dispatch `Ord.X => Gen.Euler.<member>_X`) must be exactly what tools/scaffold/c11_tables.py prints:
     no hand-edited row can pair an order with another order's definition."""
@@ -299,7 +358,13 @@ def run(chk):
         "neighbourhoods of gimbal lock are measured",
         "'within pi of the target': theorems for ANY bound on |angleMod| (makeNear_within ...); the bound that holds for the real float-returning "
         "angleMod is float(M_PI) > M_PI: exhaustive over all finite float arguments for T = float (thorough tier; every 61st in the quick tier), "
-        "sampled for T = double",
+        "structured + random sweep for T = double (exact range, congruence to half a float ulp); what these sweeps check is range and "
+        "congruence, which fix the result up to the choice between +pi and -pi at the boundary (either satisfies the property); equality with "
+        "the exact model is the sampled Lean-driver correspondence (tolerance one float ulp)",
+        "legal() accepts 32 of the 2^16 patterns: the 24 enumerators and the 8 patterns 0x3*** with both axis bits set, which setOrder stores "
+        "exactly like the Z-axis enumerator 0x2*** (theorems legal_iff, legal_aliases_behave); the property quantifies over the 24 enumerators",
+        "Lean-side validation of the emitted text has no case for the 96 entries with the M_PI literal (fraction overflow) and the 4 extractEuler* "
+        "entries: obliged by name (lean-tv coverage); those are validated bitwise at double on the C++ side only",
         "makeNear with a target of another order: extracted for targets of order XYZ and ZYXr x all 24 orders of *this (the branch is order-agnostic)",
         "extractEulerXYZ/ZYX/extractEuler: identified with the member extract on the ROW-NORMALISED matrix for every input, scale invariance "
         "proved for positive per-row factors; negative / zero factors are outside the property",
@@ -328,7 +393,8 @@ def run(chk):
         # entries without scalar/aggregate inputs (angleOrder_*, angleMapping_*, order_*: integer constants with an unresolvable implicit
         # element type in a bare #eval) are validated by the `real_*_eq_model` theorems instead
         index_tv = [d for d in index if d.get("params")]
-        troute.lean_tv(chk, bins["sym_c11"], "c11", index_tv, n=4 if chk.thorough else 1, idx_deps=[LEAF_IDX], param_stubs={"angleMod": ANGLEMOD_STUB})
+        troute.lean_tv(chk, bins["sym_c11"], "c11", index_tv, n=4 if chk.thorough else 2, idx_deps=[LEAF_IDX], param_stubs={"angleMod": ANGLEMOD_STUB})
+        lean_tv_coverage(chk, bins["sym_c11"], index_tv)
         tables_unchanged(chk)
 
         def search(name):
@@ -361,6 +427,7 @@ def run(chk):
         anglemod_correspondence(chk, bins["c11_corr"], 60000 if chk.thorough else 6000)
     if bins.get("c11_corr"):
         anglemod_float_all(chk, bins["c11_corr"])
+        anglemod_double_sweep(chk, bins["c11_corr"])
 
     if chk.thorough:
         chk.leanchecker("ImathVerif.Props.C11")
